@@ -2,6 +2,9 @@ mod util;
 mod remoteaddr;
 mod resid;
 mod decoder;
+mod queue;
+mod queue_conc;
+mod queue_timed;
 
 fn main() {
     let args: Vec<String> = std::env::args().collect();
@@ -16,6 +19,9 @@ fn main() {
         "remoteaddr" => remoteaddr::run(&a),
         "resid" => resid::run(&a),
         "decoder" => decoder::run(&a),
+        "queue" => queue::run(&a),
+        "queue_conc" => queue_conc::run(&a),
+        "queue_timed" => queue_timed::run(&a),
         other => {
             eprintln!("unknown core {}", other);
             std::process::exit(2);
